@@ -40,7 +40,10 @@ def main():
     sid, prop, src = sys.argv[1:4]
     tier = "quick"
     extra_props = []
+    phase = "both"
     for a in sys.argv[4:]:
+        if a.startswith("--phase="):
+            phase = a.split("=")[1]
         if a.startswith("--tier="):
             tier = a.split("=")[1]
         elif a.startswith("--also="):
@@ -56,14 +59,21 @@ def main():
     if os.path.exists(prev_path):
         prev = json.load(open(prev_path))
         # keep the verdict of the checks as they were when the seed was first evaluated
-        meta["checks_when_first_evaluated"] = prev.get("checks_when_first_evaluated", prev.get("checks"))
+        if prev.get("checks"):
+            meta["checks_when_first_evaluated"] = prev.get("checks_when_first_evaluated", prev.get("checks"))
+        if phase == "2":
+            meta["confirmed"] = prev.get("confirmed", {})
+        if "summary" in prev:
+            meta["summary"] = prev["summary"]
     # ---- 1. independent confirmation in scratch worktrees
     wt, clean = "/tmp/seedchk_%s" % sid, "/tmp/seedchk_%s_clean" % sid
-    for d in (wt, clean):
-        sh(["git", "-C", "/repo", "worktree", "remove", "--force", d])
-    sh(["git", "-C", "/repo", "worktree", "add", "--detach", wt, "HEAD"])
-    sh(["git", "-C", "/repo", "worktree", "add", "--detach", clean, "HEAD"])
+    if phase != "2":
+        for d in (wt, clean):
+            sh(["git", "-C", "/repo", "worktree", "remove", "--force", d])
+        sh(["git", "-C", "/repo", "worktree", "add", "--detach", wt, "HEAD"])
+        sh(["git", "-C", "/repo", "worktree", "add", "--detach", clean, "HEAD"])
     try:
+      if phase != "2":
         rc, o = sh(["git", "-C", wt, "apply", patch])
         meta["confirmed"]["patch_applies"] = rc == 0
         if rc != 0:
@@ -80,8 +90,14 @@ def main():
             meta["confirmed"]["demo_output_with_change"] = o1[-600:]
             meta["confirmed"]["demo_discriminates"] = (rc1 != 0 and rc0 == 0)
     finally:
-        for d in (wt, clean):
-            sh(["git", "-C", "/repo", "worktree", "remove", "--force", d])
+        if phase != "2":
+            for d in (wt, clean):
+                sh(["git", "-C", "/repo", "worktree", "remove", "--force", d])
+    if phase == "1":
+        with open(os.path.join(out, "meta.json"), "w") as fh:
+            json.dump(meta, fh, indent=1)
+        print(json.dumps({"seed": sid, "confirmed": meta["confirmed"]}, indent=1)[:1500])
+        return
     # ---- 2. registered check(s) against the change applied to /repo
     rc, o = sh(["git", "-C", "/repo", "status", "--porcelain"])
     if o.strip():
